@@ -8,6 +8,12 @@ import sys
 HOME = os.environ.get('VERIF_HOME') or os.path.dirname(os.path.dirname(os.path.abspath(__file__)))
 sys.path.insert(0, HOME)
 sys.path.insert(0, os.path.join(HOME, 'harness'))
+if os.environ.get('VERIF_REPO'):
+    # development aid only (engine/seedcheck.py --mode worktree): analyse another checkout of the repository instead of /repo.
+    # The registered commands never set it.
+    _src = os.path.join(os.environ['VERIF_REPO'], 'src')
+    sys.path.insert(0, _src)
+    os.environ['PYTHONPATH'] = _src + os.pathsep + os.environ.get('PYTHONPATH', '')
 import logging
 logging.disable(logging.CRITICAL)
 from engine import core  # noqa: E402
